@@ -3,6 +3,7 @@ package sym
 import (
 	"fmt"
 	"go/types"
+	"golang.org/x/tools/go/ssa"
 	"math/big"
 	"strings"
 
@@ -55,7 +56,9 @@ func init() {
 		return TupleV{child, &writeFn{Parent: parent, Child: child, c: write}}
 	}, CX("CacheContext"))
 	reg(func(c *Call) Val {
-		return &StoreV{W: c.ctx(0).W, Module: c.callerModule()}
+		// ctx.KVStore(key) returns whatever store is mounted under the key: the module's
+		// transient store when handed the keeper's transient store key
+		return &StoreV{W: c.ctx(0).W, Module: c.callerModule(), Transient: c.Common != nil && len(c.Common.Args) > 1 && IsTransientKeyExpr(c.Common.Args[1])}
 	}, CX("KVStore"))
 	reg(func(c *Call) Val {
 		return &StoreV{W: c.ctx(0).W, Module: c.callerModule(), Transient: true}
@@ -261,6 +264,11 @@ func init() {
 		w.Log = append(w.Log, "bank mint")
 		return ex.nilErr()
 	}, "BankKeeper.MintCoins")
+	regInvoke(func(c *Call) Val {
+		// denom metadata lives in its own bank table: no balance, supply or elys state changes
+		c.Ex.Calls = append(c.Ex.Calls, "bank.metadata")
+		return nil
+	}, "BankKeeper.SetDenomMetaData")
 	regInvoke(func(c *Call) Val {
 		ex := c.Ex
 		w := c.ctx(1).W
@@ -503,4 +511,33 @@ func (ex *Exec) iterFirst(it *IterV) *BytesV {
 	ex.assume(smt.Forall(bvs, smt.Not(hasB)))
 	it.firstOK = 2
 	return nil
+}
+
+// IsTransientKeyExpr: the store-key expression reads a field whose name says it is the
+// transient store key (k.transientStoreKey, k.tStoreKey, k.tkey).
+func IsTransientKeyExpr(v ssa.Value) bool {
+	for i := 0; i < 6 && v != nil; i++ {
+		switch x := v.(type) {
+		case *ssa.UnOp:
+			v = x.X
+		case *ssa.MakeInterface:
+			v = x.X
+		case *ssa.ChangeInterface:
+			v = x.X
+		case *ssa.FieldAddr:
+			st := x.X.Type().Underlying().(*types.Pointer).Elem().Underlying().(*types.Struct)
+			return transientFieldName(st.Field(x.Field).Name())
+		case *ssa.Field:
+			st := x.X.Type().Underlying().(*types.Struct)
+			return transientFieldName(st.Field(x.Field).Name())
+		default:
+			return false
+		}
+	}
+	return false
+}
+
+func transientFieldName(n string) bool {
+	n = strings.ToLower(n)
+	return strings.Contains(n, "transient") || n == "tkey" || n == "tstorekey"
 }
